@@ -21,29 +21,31 @@ from ..drivers import reservoir as drv
 OWN_CLAUSES = {"StaleTime", "StaleField", "StaleReturn", "Idempotent", "Outcome", "NoRef"}
 
 
-def export_behaviours(ctx: core.Ctx, kind: str, depth: int) -> list[list[dict]]:
+def export_behaviours(ctx: core.Ctx, kind: str, depth: int, setters: bool = False) -> list[list[dict]]:
     sdir = env.scratch("c10exp")
     try:
         cfg = tlc.write_cfg(sdir / "exp.cfg", spec="Spec",
-                            constants={"Kind": f'"{kind}"', "MaxDepth": depth, "Deviation": '"none"', "Export": "TRUE"},
+                            constants={"Kind": f'"{kind}"', "MaxDepth": depth, "Deviation": '"none"', "Export": "TRUE",
+                                       "Setters": "TRUE" if setters else "FALSE"},
                             invariants=["TypeOK", "C10_Fresh", "C10_Idempotent", "C17_ConstIsScalar",
                                         "C17_ErrorsBeforeSim", "C17_MismatchRejected", "CacheIsCurrent", "ExportLeaf"])
         r = ctx.model_check("Reservoir", cfg, workers=16, scratch=sdir, timeout=1500)
     finally:
         env.cleanup(sdir)
     behs = [b["steps"] for b in r.by_tag("BEH")]
-    ncalls = 15 if kind == "single" else 6
+    ncalls = (19 if setters else 15) if kind == "single" else 6
     if len(behs) != ncalls**depth:
         raise tlc.MachineryError(f"expected {ncalls**depth} exported histories for {kind}, got {len(behs)}")
     return behs
 
 
-def export_sampled(ctx: core.Ctx, kind: str, depth: int, num: int) -> list[list[dict]]:
+def export_sampled(ctx: core.Ctx, kind: str, depth: int, num: int, setters: bool = False) -> list[list[dict]]:
     """Random behaviours of the given depth from TLC's simulation mode (for depths whose full enumeration is too large)."""
     sdir = env.scratch("c10sim")
     try:
         cfg = tlc.write_cfg(sdir / "sim.cfg", spec="Spec",
-                            constants={"Kind": f'"{kind}"', "MaxDepth": depth, "Deviation": '"none"', "Export": "TRUE"},
+                            constants={"Kind": f'"{kind}"', "MaxDepth": depth, "Deviation": '"none"', "Export": "TRUE",
+                                       "Setters": "TRUE" if setters else "FALSE"},
                             invariants=["TypeOK", "C10_Fresh", "C10_Idempotent", "CacheIsCurrent", "ExportLeaf"])
         r = ctx.tlc("Reservoir", cfg, workers=8, scratch=sdir, timeout=1500, simulate=f"num={num}", depth=depth + 1,
                     seed=ctx.seed + 11)
@@ -90,6 +92,12 @@ def _walk(args):
             bad = []
             if ob["kind"] == "unspecified":
                 pass
+            elif ob["kind"] == "set":   # the caller assigned the attribute: nothing to compare, the call must simply succeed
+                if outcome != "ok":
+                    bad.append(("Outcome", f"assigning pressure_fracface raised {outcome}"))
+            elif ob["kind"] == "AnyError":   # a rejected simulate on a never-simulated object: there is still nothing to report on
+                if outcome == "ok":
+                    bad.append(("Outcome", "expected an error (no simulation has succeeded on this object), got a result"))
             elif ob["kind"] in ("RuntimeError", "ValueError", "NotImplementedError"):
                 if outcome != ob["kind"]:
                     bad.append(("Outcome", f"expected {ob['kind']}, got {outcome}"))
@@ -121,12 +129,12 @@ def _walk(args):
     return nsteps, fails, len(refs)
 
 
-def replay_histories(ctx: core.Ctx, kind: str, behs, variants, clauses=None, keep=None) -> None:
+def replay_histories(ctx: core.Ctx, kind: str, behs, variants, clauses=None, keep=None, setters: bool = False) -> None:
     groups: dict[str, list] = {}
     for steps in behs:
         groups.setdefault(json.dumps(steps[0]["call"], sort_keys=True), []).append(steps)
-    rt = reference_tables([(kind, v) for v in variants])   # fresh interpreters, one per simulation
-    reftabs = {v: rt[(kind, v)] for v in variants}
+    rt = reference_tables([(kind, v, setters) for v in variants])   # fresh interpreters, one per simulation
+    reftabs = {v: rt[(kind, v, setters)] for v in variants}
     tasks = [(kind, v, g, reftabs[v]) for v in variants for g in groups.values()]
     with ProcessPoolExecutor(max_workers=16) as ex:
         for (k, v, g, _r), (nsteps, fails, _nrefs) in zip(tasks, ex.map(_walk, tasks)):
@@ -163,19 +171,23 @@ def _fmt(calls) -> str:
             out.append(f"sim({c['grid']}{'' if c.get('sched', 'none') == 'none' else ',' + c['sched']})")
         elif c["op"] == "rf":
             out.append("rf(density)" if c["mode"] == "density" else "rf()")
+        elif c["op"] == "setpf":
+            out.append("pf=alt")
         else:
             out.append("interp()")
     return ";".join(out)
 
 
 # ---- code -> spec ----------------------------------------------------------------------------------------
-def random_call(rng, kind):
+def random_call(rng, kind, setters=False):
     r = rng.random()
+    if setters and kind == "single" and r < 0.07:
+        return {"op": "setpf"}   # the caller assigns another scalar to pressure_fracface
     if r < 0.4:
         g = str(rng.choice(["A", "B", "C"]))
         s = "none"
         if kind == "single" and rng.random() < 0.5:
-            s = str(rng.choice(["S", "K", "O"]))
+            s = str(rng.choice(["S", "K", "O", "KA"] if setters else ["S", "K", "O"]))
         return {"op": "simulate", "grid": g, "sched": s}
     if r < 0.75:
         return {"op": "rf", "mode": str(rng.choice(["flux", "density"]))}
@@ -183,7 +195,7 @@ def random_call(rng, kind):
 
 
 def _record(args):
-    kind, variant, seed, nobj, length, tid0, reftab = args
+    kind, variant, seed, nobj, length, tid0, reftab, setters = args
     env.import_bluebonnet()
     rng = np.random.default_rng([seed, variant, 17])
     inst = drv.default_inst(kind, variant)
@@ -191,7 +203,7 @@ def _record(args):
     events = []
     tid = tid0
     seq = 0
-    for obs in drv.all_observations(kind):
+    for obs in drv.all_observations(kind, setters):
         outcome, proj = reftab[json.dumps(obs, sort_keys=True)]
         if outcome != "ok":
             return None, f"fresh object failed with {outcome} for {obs} ({inst.describe()})"
@@ -202,7 +214,7 @@ def _record(args):
         events.append({"tid": tid, "seq": seq, "ev": "New", "objkind": kind})
         seq += 1
         for _ in range(length):
-            c = random_call(rng, kind)
+            c = random_call(rng, kind, setters)
             if rng.random() < 0.15 and events[-1]["ev"] == "Call":
                 c = events[-1]["call"]  # repeat the previous call
             outcome, proj, _ = drv.apply(inst, obj, c)
@@ -211,13 +223,14 @@ def _record(args):
     return events, inst.describe()
 
 
-def trace_validation(ctx: core.Ctx, n_inst: int, nobj: int, length: int, clauses=None) -> None:
+def trace_validation(ctx: core.Ctx, n_inst: int, nobj: int, length: int, clauses=None, setters: bool = False,
+                     kinds=("single", "ideal")) -> None:
     tasks = []
     tid = 1
-    keys = [(kind, v) for kind in ("single", "ideal") for v in range(n_inst)]
+    keys = [(kind, v, setters) for kind in kinds for v in range(n_inst)]
     reftabs = reference_tables(keys)
-    for kind, v in keys:
-        tasks.append((kind, v, ctx.seed, nobj, length, tid, reftabs[(kind, v)]))
+    for kind, v, _s in keys:
+        tasks.append((kind, v, ctx.seed + (1000 if setters else 0), nobj, length, tid, reftabs[(kind, v, setters)], setters))
         tid += 1
     events = []
     with ProcessPoolExecutor(max_workers=16) as ex:
@@ -274,7 +287,8 @@ def run(ctx: core.Ctx) -> None:
         "a fresh object is constructed with the same constructor arguments (shared FlowProperties instance)",
         "identity of results is bitwise equality of float64 arrays (time, pseudopressure, recovery, interpolator "
         "sampled at grid nodes, midpoints and 6 points outside the range)",
-        "after a rejected simulate() the object is unspecified until the next successful simulate()",
+        "after a rejected simulate() the object is unspecified until the next successful simulate(), except that on an object that has "
+        "never been simulated successfully recovery and interpolator calls still have to raise (any exception)",
     ]
     ctx.trusted += ["TLC 2026.09", "numpy array byte equality", "projection bbv/drivers/reservoir.py"]
     # deviations must be refuted (non-vacuity of C10_Fresh)
